@@ -447,6 +447,8 @@ func TestVerifC14Server(t *testing.T) {
 		probe{"max-message-bytes=2000 size 2014", func() (string, string, bool) { return c14MessageSize(2000, 2014) }},
 		probe{"ws-connects-per-min=60 burst 3", func() (string, string, bool) { return c14RequestRate("ws", 60, 3) }},
 		probe{"session-creates-per-min=120 burst 2", func() (string, string, bool) { return c14RequestRate("session", 120, 2) }},
+		probe{"ws-connects-per-min=30 burst 3 (the default rate)", func() (string, string, bool) { return c14RequestRate("ws", 30, 3) }},
+		probe{"session-creates-per-min=10 burst 2 (the default rate)", func() (string, string, bool) { return c14RequestRate("session", 10, 2) }},
 		probe{"max-message-bytes=2000 size 1000", func() (string, string, bool) { return c14MessageSize(2000, 1000) }},
 		probe{"max-message-bytes=0 size 100000", func() (string, string, bool) { return c14MessageSize(0, 100000) }},
 		probe{"ws-msgs-per-sec=20 burst=5 n=80", func() (string, string, bool) { return c14MsgRate(20, 5, 80, 0) }},
@@ -522,7 +524,7 @@ func TestVerifC14Server(t *testing.T) {
 			}
 			sig, detail, nt = c14MessageSize(limit, size)
 		case "reqrate":
-			sig, detail, nt = c14RequestRate(rapid.SampledFrom([]string{"ws", "session"}).Draw(rt, "what"), rapid.SampledFrom([]int{0, 60, 120, 600}).Draw(rt, "per_min"), rapid.IntRange(1, 6).Draw(rt, "b"))
+			sig, detail, nt = c14RequestRate(rapid.SampledFrom([]string{"ws", "session"}).Draw(rt, "what"), rapid.SampledFrom([]int{0, 10, 30, 45, 60, 90, 120, 600}).Draw(rt, "per_min"), rapid.IntRange(1, 6).Draw(rt, "b"))
 		default:
 			rate := rapid.SampledFrom([]int{0, 10, 40}).Draw(rt, "rate")
 			idle := rapid.SampledFrom([]time.Duration{0, 0, 900 * time.Millisecond}).Draw(rt, "idle")
